@@ -216,6 +216,26 @@ def run_case(case, ctx, acc):
             acc.n += 1
             if d:
                 d = [('titrate-only/' + d[0][0],) + tuple(d[0][1:])]
+        if name.startswith('twin/'):
+            # both members of the new twin pair named in one titrate-only list (either order) select the same two residues as
+            # their old names do; only the set of reported groups is compared (the numbers of twins are the subject of KF-C06-*)
+            cc = name[5]
+            n1 = int(name[6:])
+            olds = [(cc, n1, ' '), (cc, n1 + 1, ' ')]
+            news = [f(*o) for o in olds]
+            arg = lambda ks: ','.join('%s:%d%s' % (c.strip() or '_', n, i.strip()) for c, n, i in ks)   # noqa: E731
+            km = keymap_of(f)
+            ra = pk.record(pk.run(text0, ('-i', arg(olds))))
+            want = sorted(km(g['key']) for g in ra['confs']['AVR']['groups'] if g['use'])
+            for order in (news, news[::-1]):
+                rb = pk.record(pk.run(text1, ('-i', arg(order))))
+                got = sorted(g['key'] for g in rb['confs']['AVR']['groups'] if g['use'])
+                acc.n += 1
+                if got != want:
+                    acc.viols.append(Viol(dict(sub, titrate_only=arg(order)), 'relabel', 'titrate-only-twins-select-different-residues',
+                                          '%s: -i %s reports %s, the old names report %s' % (name, arg(order), got, want),
+                                          inputs=dict(pdb=text0, relabelled=text1)))
+                    break
         if d:
             stage = d[0][0]
             ck = 'relabel-changes-result/%s/first-divergence=%s/%s' % (
